@@ -54,6 +54,9 @@ func nats(xs []int) string {
 	return "[" + strings.Join(ss, ";") + "]%nat"
 }
 
+// exactNaN: print NaN payloads bit for bit (C12) instead of the canonical quiet NaN
+var exactNaN = false
+
 const qnan32 = "2143289344"
 const qnan64 = "9221120237041090560"
 
@@ -63,14 +66,14 @@ func payload(t tensor.Tensor) []string {
 	var out []string
 	add := func(format string, v interface{}) { out = append(out, fmt.Sprintf(format, v)) }
 	f32 := func(x float32) {
-		if x != x {
+		if x != x && !exactNaN {
 			out = append(out, qnan32)
 		} else {
 			add("%d", math.Float32bits(x))
 		}
 	}
 	f64 := func(x float64) {
-		if x != x {
+		if x != x && !exactNaN {
 			out = append(out, qnan64)
 		} else {
 			add("%d", math.Float64bits(x))
